@@ -472,16 +472,19 @@ func (ga *guardAnalysis) assign(n *ast.AssignStmt, f *facts) {
 // bind records facts about `p = rhs`.
 func (ga *guardAnalysis) bind(l ast.Expr, p string, rhs ast.Expr, f *facts) {
 	rhs = ast.Unparen(rhs)
-	// v := len(P)
-	if q, ok := ga.pe.lenArg(rhs, f); ok {
-		f.lenOf[p] = q
-		return
-	}
-	// constant value
+	// constant value (len of an array is one)
 	if c, ok := ga.pe.constInt(rhs); ok && isIntegerType(ga.p.Info.TypeOf(l)) {
 		if c != 0 {
 			f.nonzero[p] = true
 		}
+		if q, ok := ga.pe.lenArg(rhs, f); ok {
+			f.lenOf[p] = q
+		}
+		return
+	}
+	// v := len(P)
+	if q, ok := ga.pe.lenArg(rhs, f); ok {
+		f.lenOf[p] = q
 		return
 	}
 	switch r := rhs.(type) {
